@@ -1039,3 +1039,377 @@ Proof.
       rewrite skipn_cons. rewrite skipn_add. f_equal. lia.
     + rewrite app_length. cbn [length]. rewrite firstn_length_le by lia. rewrite skipn_length. lia.
 Qed.
+
+Lemma firstn_snoc : forall A (l : list A) k x, nth_error l k = Some x -> firstn (S k) l = firstn k l ++ [x].
+Proof.
+  induction l as [|h t IH]; intros k x H; destruct k; cbn in *; try discriminate.
+  - inv H. reflexivity.
+  - rewrite (IH k x H). reflexivity.
+Qed.
+
+Lemma skipn_rev : forall A (l : list A) n, skipn n (rev l) = rev (firstn (length l - n) l).
+Proof.
+  intros A l n. rewrite <- (firstn_skipn (length l - n) l) at 1.
+  rewrite rev_app_distr.
+  destruct (Nat.le_gt_cases n (length l)) as [Hle|Hgt].
+  - replace n with (length (rev (skipn (length l - n) l)) + 0)%nat at 1
+      by (rewrite rev_length, skipn_length; lia).
+    rewrite skipn_app. rewrite rev_length, skipn_length.
+    replace (length l - (length l - n) + 0 - (length l - (length l - n)))%nat with 0%nat by lia.
+    rewrite skipn_all2 by (rewrite rev_length, skipn_length; lia). reflexivity.
+  - replace (length l - n)%nat with 0%nat by lia. cbn [firstn skipn rev app].
+    rewrite skipn_all2 by (rewrite app_length, rev_length; cbn; lia). reflexivity.
+Qed.
+
+Lemma rev_replicate : forall A n (x : A), rev (replicate n x) = replicate n x.
+Proof.
+  induction n as [|n IH]; intro x; [reflexivity|]. cbn [replicate rev]. rewrite IH.
+  clear IH. induction n as [|n IH]; [reflexivity|]. cbn [replicate app]. rewrite IH. reflexivity.
+Qed.
+
+Section Growth.
+  Variables (grow : Z -> Z) (junk : Z).
+  Hypothesis Hgrow : grow_ok grow.
+
+  Lemma g_abs_nil : forall g, g_len g = 0 -> g_abs g = [].
+  Proof. intros g H. unfold g_abs. rewrite H. reflexivity. Qed.
+
+  Lemma g_abs_head : forall g extra, g_inv g -> 1 <= g_len g ->
+    exists x rest, g_abs g = x :: rest /\ znth (g_data g ++ extra) (g_len g - 1) = Some x.
+  Proof.
+    intros g extra (Hl & Hd & Hr) H1. unfold g_abs, znth, zlen in *.
+    destruct (g_len g - 1 <? 0) eqn:E; [lia|].
+    assert (Hk : (Z.to_nat (g_len g - 1) < length (g_data g))%nat) by lia.
+    destruct (nth_error (g_data g) (Z.to_nat (g_len g - 1))) as [x|] eqn:En; [|apply nth_error_None in En; lia].
+    exists x, (rev (firstn (Z.to_nat (g_len g - 1)) (g_data g))). split.
+    - replace (Z.to_nat (g_len g)) with (S (Z.to_nat (g_len g - 1))) by lia.
+      rewrite (firstn_snoc _ _ _ _ En). rewrite rev_app_distr. reflexivity.
+    - rewrite nth_error_app1 by lia. assumption.
+  Qed.
+
+  (* storing vs at length_ in the (possibly enlarged) array appends them to the observable content *)
+  Lemma store_abs : forall g extra vs, g_inv g -> g_len g + zlen vs <= g_res g + zlen extra ->
+    exists d, g_store (g_data g ++ extra) (g_len g) vs = Some d /\
+              g_inv (mkG d (g_len g + zlen vs) (g_res g + zlen extra)) /\
+              g_abs (mkG d (g_len g + zlen vs) (g_res g + zlen extra)) = rev vs ++ g_abs g.
+  Proof.
+    intros g extra vs (Hl & Hd & Hr) Hn. unfold zlen in *.
+    set (ln := Z.to_nat (g_len g)).
+    assert (Hlen : g_len g = Z.of_nat ln) by (subst ln; lia).
+    assert (Hfit : (ln + length vs <= length (g_data g ++ extra))%nat) by (rewrite app_length; lia).
+    eexists. split; [rewrite Hlen; apply g_store_spec; assumption|].
+    assert (Hf : length (firstn ln (g_data g ++ extra)) = ln) by (apply firstn_length_le; lia).
+    split.
+    - unfold g_inv, zlen. cbn [g_len g_res g_data]. repeat split; try lia.
+      rewrite !app_length, Hf, skipn_length, app_length. lia.
+    - unfold g_abs. cbn [g_len g_data].
+      replace (Z.to_nat (g_len g + Z.of_nat (length vs))) with (length (firstn ln (g_data g ++ extra) ++ vs) + 0)%nat
+        by (rewrite app_length, Hf; lia).
+      rewrite app_assoc. rewrite firstn_app_2. cbn [firstn]. rewrite app_nil_r.
+      rewrite rev_app_distr. f_equal.
+      rewrite firstn_app. replace (ln - length (g_data g))%nat with 0%nat by lia. cbn [firstn]. rewrite app_nil_r.
+      reflexivity.
+  Qed.
+
+  Lemma g_store_single : forall data a v, g_store data a [v] = zupd data a v.
+  Proof. intros. cbn [g_store]. destruct (zupd data a v); reflexivity. Qed.
+
+  Lemma g_apply_refines : forall g op, g_inv g ->
+    match buf_apply (g_abs g) op with
+    | BOk b' => exists g', g_apply grow junk g op = GOk g' /\ g_inv g' /\ g_abs g' = b'
+    | BErr err => g_apply grow junk g op = GErr err
+    | BFault k => g_apply grow junk g op = GFault k
+    end.
+  Proof.
+    intros g op Hi. pose proof Hi as (Hl & Hd & Hr).
+    destruct op as [vs_rev|d v|n|n]; cbn [buf_apply g_apply].
+    - (* write *)
+      destruct (g_maybe_resize_spec grow junk g (g_len g + zlen vs_rev) Hgrow Hi ltac:(unfold zlen; lia)) as (extra & Hm & Hn).
+      rewrite Hm. cbn [g_data g_len g_res].
+      destruct (store_abs g extra (rev vs_rev) Hi) as (dt & Hs & Hi' & Ha).
+      { unfold zlen in *. rewrite rev_length. lia. }
+      rewrite Hs. assert (Hz : zlen (rev vs_rev) = zlen vs_rev) by (unfold zlen; rewrite rev_length; reflexivity).
+      rewrite Hz in *. eexists. split; [reflexivity|]. split; [assumption|]. rewrite Ha, rev_involutive. reflexivity.
+    - (* write_add *)
+      destruct (g_maybe_resize_spec grow junk g (g_len g + 1) Hgrow Hi ltac:(lia)) as (extra & Hm & Hn).
+      assert (Hprev : exists prev, (if g_len g =? 0 then Some 0 else znth (g_data g) (g_len g - 1)) = Some prev /\
+                                   prev = match g_abs g with [] => 0 | x :: _ => x end).
+      { destruct (g_len g =? 0) eqn:E0.
+        - exists 0. rewrite g_abs_nil by lia. split; reflexivity.
+        - destruct (g_abs_head g [] Hi ltac:(lia)) as (x & rest & Hx & Hz). rewrite app_nil_r in Hz.
+          exists x. rewrite Hx. split; [assumption|reflexivity]. }
+      destruct Hprev as (prev & Hp1 & Hp2). rewrite Hp1, Hm. cbn [g_data g_len g_res].
+      destruct (store_abs g extra [add_out d prev v] Hi) as (dt & Hs & Hi' & Ha).
+      { unfold zlen in *. cbn [length]. lia. }
+      rewrite g_store_single in Hs. replace (g_len g + 1 - 1) with (g_len g) by lia. rewrite Hs.
+      change (zlen [add_out d prev v]) with 1 in *.
+      eexists. split; [reflexivity|]. split; [assumption|]. rewrite Ha. cbn [rev app]. rewrite Hp2. reflexivity.
+    - (* dup *)
+      destruct (g_len g =? 0) eqn:E0.
+      { rewrite g_abs_nil by lia. reflexivity. }
+      destruct (0 <? n) eqn:En.
+      + destruct (g_maybe_resize_spec grow junk g (g_len g + n) Hgrow Hi ltac:(lia)) as (extra & Hm & Hn).
+        destruct (g_abs_head g extra Hi ltac:(lia)) as (x & rest & Hx & Hz).
+        rewrite Hx, Hm. cbn [g_data g_len g_res]. rewrite Hz.
+        destruct (store_abs g extra (replicate (Z.to_nat n) x) Hi) as (dt & Hs & Hi' & Ha).
+        { unfold zlen in *. rewrite replicate_length. lia. }
+        assert (Hzl : zlen (replicate (Z.to_nat n) x) = n) by (unfold zlen; rewrite replicate_length; lia).
+        rewrite Hzl in *. rewrite Hs.
+        eexists. split; [reflexivity|]. split; [assumption|]. rewrite Ha, rev_replicate, Hx. reflexivity.
+      + destruct (g_abs_head g [] Hi ltac:(lia)) as (x & rest & Hx & _). rewrite Hx.
+        exists g. split; [reflexivity|]. split; [assumption|assumption].
+    - (* rewind *)
+      assert (Hzl : zlen (g_abs g) = g_len g).
+      { unfold g_abs, zlen in *. rewrite rev_length, firstn_length_le by lia. lia. }
+      rewrite Hzl. destruct (g_len g - n <? 0) eqn:E1; [reflexivity|].
+      destruct (n <? 0) eqn:E2; [reflexivity|].
+      eexists. split; [reflexivity|]. split.
+      + unfold g_inv. cbn [g_len g_res g_data]. repeat split; lia.
+      + unfold g_abs. cbn [g_len g_data]. rewrite skipn_rev. f_equal.
+        unfold zlen in *. rewrite firstn_length_le by lia. rewrite firstn_firstn. f_equal. lia.
+  Qed.
+
+  Lemma g_run_refines : forall ops g, g_inv g ->
+    match buf_run (g_abs g) ops with
+    | BOk b' => exists g', g_run grow junk g ops = GOk g' /\ g_abs g' = b'
+    | BErr err => g_run grow junk g ops = GErr err
+    | BFault k => g_run grow junk g ops = GFault k
+    end.
+  Proof.
+    induction ops as [|op ops IH]; intros g Hi; cbn [buf_run g_run].
+    - exists g. split; reflexivity.
+    - pose proof (g_apply_refines g op Hi) as H.
+      destruct (buf_apply (g_abs g) op) as [b'|err|k].
+      + destruct H as (g' & Hg & Hi' & Ha). rewrite Hg. rewrite <- Ha. apply IH. assumption.
+      + rewrite H. reflexivity.
+      + rewrite H. reflexivity.
+  Qed.
+End Growth.
+
+Definition g_obs (r : gres) : option bres :=
+  match r with GOk g => Some (BOk (g_abs g)) | GErr err => Some (BErr err) | GFault k => Some (BFault k) | GFuel => None end.
+
+Lemma g_new_inv : forall initial junk, 1 <= initial -> g_inv (g_new initial junk) /\ g_abs (g_new initial junk) = [].
+Proof.
+  intros initial junk H. unfold g_new, g_inv, g_abs, zlen. cbn [g_len g_res g_data]. rewrite replicate_length.
+  repeat split; try lia.
+Qed.
+
+(* (c) whatever the initial size (>= 1) and the growth function (strictly increasing the reservation, as
+   ceil(r * factor) does for factor > 1), a sequence of output operations shows exactly the list semantics used by
+   the machine model — in particular two different growth settings are indistinguishable *)
+Theorem growth_refines_lists_proof : forall grow junk initial ops, grow_ok grow -> 1 <= initial ->
+  g_obs (g_run grow junk (g_new initial junk) ops) = Some (buf_run [] ops).
+Proof.
+  intros grow junk initial ops Hg Hi. destruct (g_new_inv initial junk Hi) as (Hinv & Habs).
+  pose proof (g_run_refines grow junk Hg ops _ Hinv) as H. rewrite Habs in H.
+  destruct (buf_run [] ops) as [b'|err|k].
+  - destruct H as (g' & Hr & Ha). rewrite Hr. cbn. rewrite Ha. reflexivity.
+  - rewrite H. reflexivity.
+  - rewrite H. reflexivity.
+Qed.
+
+Theorem growth_irrelevant_proof : forall grow1 grow2 junk1 junk2 initial1 initial2 ops,
+  grow_ok grow1 -> grow_ok grow2 -> 1 <= initial1 -> 1 <= initial2 ->
+  g_obs (g_run grow1 junk1 (g_new initial1 junk1) ops) = g_obs (g_run grow2 junk2 (g_new initial2 junk2) ops).
+Proof.
+  intros. rewrite !growth_refines_lists_proof by assumption. reflexivity.
+Qed.
+
+(* the growth function of the implementation: (int64_t) ceil (r * num / den) with num/den > 1 *)
+Example grow_ok_ceil : forall num den, 0 < den < num -> grow_ok (fun r => - ((- (r * num)) / den)).
+Proof.
+  intros num den H r Hr. cbv beta.
+  assert (- (r * num) / den < - r); [|lia].
+  apply Z.div_lt_upper_bound; [lia|]. nia.
+Qed.
+
+(* ================================================================== 8. wrap-around of the arithmetic words *)
+Theorem wraparound_spec_proof : forall p e m a b s, 0 < p_w p -> m_stack m = b :: a :: s ->
+  let w := p_w p in
+  exec_builtin p e m CODE_ADD = continue (set_stack m (wrap w (a + b) :: s)) /\
+  exec_builtin p e m CODE_SUB = continue (set_stack m (wrap w (a - b) :: s)) /\
+  exec_builtin p e m CODE_MUL = continue (set_stack m (wrap w (a * b) :: s)) /\
+  exec_builtin p e m CODE_NEGATE = continue (set_stack m (wrap w (- b) :: a :: s)) /\
+  exec_builtin p e m CODE_ADD1 = continue (set_stack m (wrap w (b + 1) :: a :: s)) /\
+  exec_builtin p e m CODE_SUB1 = continue (set_stack m (wrap w (b - 1) :: a :: s)) /\
+  exec_builtin p e m CODE_ABS = continue (set_stack m (wrap w (Z.abs b) :: a :: s)) /\
+  exec_builtin p e m CODE_LSHIFT = continue (set_stack m (wrap w (a * 2 ^ (b mod w)) :: s)) /\
+  (* where wrap w z is THE representative of z modulo 2^w in the signed range of a cell *)
+  (forall z, - 2 ^ (w - 1) <= wrap w z < 2 ^ (w - 1) /\ (exists k, wrap w z = z + k * 2 ^ w) /\
+             (- 2 ^ (w - 1) <= z < 2 ^ (w - 1) -> wrap w z = z)).
+Proof.
+  intros p e m a b s Hw Hs w. subst w.
+  unfold exec_builtin, bin_op, un_op, forth_lshift. rewrite Hs.
+  repeat split; try reflexivity.
+  - rewrite Z.shiftl_mul_pow2 by (apply Z.mod_pos_bound; lia). reflexivity.
+  - apply wrap_range; assumption.
+  - apply wrap_range; assumption.
+  - apply wrap_congr; assumption.
+  - intro Hz. apply wrap_id; assumption.
+Qed.
+
+(* ================================================================== 9. faults are error codes *)
+Definition err_rel (m m' : machine) : Prop := m_err m' = m_err m \/ 3 <= m_err m' <= 12.
+
+Lemma err_rel_refl : forall m, err_rel m m.
+Proof. intro m. left. reflexivity. Qed.
+
+Ltac stop_inv :=
+  repeat match goal with
+         | H : continue _ = Ok (_, _) |- _ => unfold continue in H; inv H
+         | H : stop _ _ = Ok (_, _) |- _ => unfold stop in H; inv H
+         | H : Ok _ = Ok _ |- _ => inv H
+         | H : Fault _ = Ok _ |- _ => discriminate H
+         | H : OutOfFuel = Ok _ |- _ => discriminate H
+         end.
+
+Ltac err_fin :=
+  unfold err_rel in *;
+  cbn [m_err set_stack set_vars set_inpos set_outs set_frames set_dos set_err set_targets set_ready fst snd] in *;
+  cbv [E_none E_not_ready E_is_done E_user_halt E_recursion E_underflow E_overflow E_read_beyond E_seek_beyond
+       E_skip_beyond E_rewind_beyond E_div_zero E_varint] in *;
+  lia.
+
+Lemma fetch_err : forall p m b m1, fetch p m = Ok (b, m1) -> err_rel m m1.
+Proof. intros p m b m1 H. unfold fetch in H. break_hyp H. stop_inv. err_fin. Qed.
+Lemma move_ip_err : forall m d m1, move_ip m d = Ok m1 -> err_rel m m1.
+Proof. intros m d m1 H. unfold move_ip in H. break_hyp H. stop_inv. err_fin. Qed.
+Lemma push_err : forall p m v fl m1, push p m v = Ok (fl, m1) -> err_rel m m1.
+Proof. intros p m v fl m1 H. unfold push in H. break_hyp H; stop_inv; err_fin. Qed.
+Lemma push_frame_err : forall p m w fl m1, push_frame p m w = Ok (fl, m1) -> err_rel m m1.
+Proof. intros p m w fl m1 H. unfold push_frame in H. break_hyp H; stop_inv; err_fin. Qed.
+Lemma pop_incr_err : forall m fl m1, pop_incr m = Ok (fl, m1) -> err_rel m m1.
+Proof. intros m fl m1 H. unfold pop_incr in H. break_hyp H; stop_inv; err_fin. Qed.
+Lemma pop_only_err : forall m m1, pop_only m = Ok m1 -> err_rel m m1.
+Proof. intros m m1 H. unfold pop_only in H. break_hyp H; stop_inv; err_fin. Qed.
+Lemma un_op_err : forall m f fl m1, un_op m f = Ok (fl, m1) -> err_rel m m1.
+Proof. intros m f fl m1 H. unfold un_op in H. break_hyp H; stop_inv; err_fin. Qed.
+Lemma bin_op_err : forall m f fl m1, bin_op m f = Ok (fl, m1) -> err_rel m m1.
+Proof. intros m f fl m1 H. unfold bin_op in H. break_hyp H; stop_inv; err_fin. Qed.
+Lemma buf_apply_err : forall b op err, buf_apply b op = BErr err -> err = E_rewind_beyond.
+Proof.
+  intros b op err H. destruct op as [vs|d v|n|n]; cbn [buf_apply] in H; try discriminate.
+  - destruct b; [inv H; reflexivity|]. destruct (0 <? n); discriminate.
+  - destruct (zlen b - n <? 0); [inv H; reflexivity|]. destruct (n <? 0); discriminate.
+Qed.
+
+Lemma out_apply_err : forall m o op fl m1, out_apply m o op = Ok (fl, m1) -> err_rel m m1.
+Proof.
+  intros m o op fl m1 H. unfold out_apply in H.
+  destruct (znth (m_outs m) o) as [b|]; [|discriminate].
+  destruct (buf_apply b op) as [b'|err|k] eqn:Eb; [| |discriminate].
+  - destruct (zupd (m_outs m) o b'); [|discriminate]. stop_inv. err_fin.
+  - apply buf_apply_err in Eb. subst err. stop_inv. err_fin.
+Qed.
+Lemma out_write_err : forall m o vs m1, out_write m o vs = Ok m1 -> err_rel m m1.
+Proof.
+  intros m o vs m1 H. unfold out_write in H. destruct (out_apply m o (BWrite vs)) as [[fl m2]|c|] eqn:E; try discriminate.
+  inv H. eapply out_apply_err; eassumption.
+Qed.
+Lemma input_read_err : forall e m i n r m1, input_read e m i n = Ok (r, m1) -> err_rel m m1.
+Proof. intros e m i n r m1 H. unfold input_read in H. break_hyp H; stop_inv; err_fin. Qed.
+
+Lemma err_rel_trans : forall a b c, err_rel a b -> err_rel b c -> err_rel a c.
+Proof. unfold err_rel. intros. lia. Qed.
+
+Lemma push_items_err : forall p vs m fl m1, push_items p m vs = Ok (fl, m1) -> err_rel m m1.
+Proof.
+  induction vs as [|v vs IH]; intros m fl m1 H; cbn [push_items] in H.
+  - stop_inv. apply err_rel_refl.
+  - destruct (can_push p m); [|stop_inv; err_fin]. apply IH in H. err_fin.
+Qed.
+
+Lemma deliver_err : forall p m d a b fl m1, deliver p m d a b = Ok (fl, m1) -> err_rel m m1.
+Proof.
+  intros p m d a b fl m1 H. unfold deliver in H. destruct d.
+  - break_hyp H; stop_inv. eapply out_write_err; eassumption.
+  - eapply push_err; eassumption.
+Qed.
+
+Lemma read_varint_err : forall fuel e m inp sh acc r m1, read_varint fuel e m inp sh acc = Ok (r, m1) ->
+  err_rel m m1 /\ match r with inr er => er = E_varint \/ er = E_read_beyond | inl _ => True end.
+Proof.
+  induction fuel as [|f IH]; intros e m inp sh acc r m1 H; cbn [read_varint] in H; [discriminate|].
+  destruct (input_read e m inp 1) as [[[bs|] m2]| |] eqn:E; try discriminate.
+  - apply input_read_err in E.
+    destruct bs as [|b [|b2 bs]]; try discriminate.
+    destruct (sh =? 63); [inv H; split; [assumption|left; reflexivity]|].
+    destruct (Z.land b 128 =? 0); [inv H; split; [assumption|exact I]|].
+    apply IH in H. destruct H as [H1 H2]. split; [eapply err_rel_trans; eassumption|assumption].
+  - apply input_read_err in E. inv H. split; [assumption|right; reflexivity].
+Qed.
+
+Lemma read_varints_err : forall zz p e n m inp d fl m1, read_varints zz p e n m inp d = Ok (fl, m1) -> err_rel m m1.
+Proof.
+  induction n as [|n IH]; intros m inp d fl m1 H; cbn [read_varints] in H.
+  - stop_inv. apply err_rel_refl.
+  - destruct (read_varint 11 e m inp 0 0) as [[[r|er] m2]| |] eqn:E; try discriminate.
+    + apply read_varint_err in E. destruct E as [E _].
+      destruct (deliver p m2 d _ _) as [[[|] m3]| |] eqn:D; try discriminate.
+      * apply deliver_err in D. apply IH in H. eapply err_rel_trans; [eassumption|]. eapply err_rel_trans; eassumption.
+      * inv H. apply deliver_err in D. eapply err_rel_trans; eassumption.
+    + apply read_varint_err in E. destruct E as [E [Her|Her]]; subst er; stop_inv; err_fin.
+Qed.
+
+Lemma read_nbits_err : forall fuel p e m inp d flip bw mask wl wr rem data fl m1,
+  read_nbits fuel p e m inp d flip bw mask wl wr rem data = Ok (fl, m1) -> err_rel m m1.
+Proof.
+  induction fuel as [|f IH]; intros p e m inp d flip bw mask wl wr rem data fl m1 H; cbn [read_nbits] in H; [discriminate|].
+  destruct (rem =? 0); [stop_inv; apply err_rel_refl|].
+  destruct (8 <=? wr); [eapply IH; eassumption|].
+  destruct (bw <=? wl - wr).
+  - destruct (deliver p m d _ _) as [[[|] m3]| |] eqn:D; try discriminate.
+    + apply deliver_err in D. apply IH in H. eapply err_rel_trans; eassumption.
+    + inv H. eapply deliver_err; eassumption.
+  - destruct (input_read e m inp 1) as [[[bs|] m2]| |] eqn:E; try discriminate.
+    + apply input_read_err in E. destruct bs as [|b [|b2 bs]]; try discriminate.
+      apply IH in H. eapply err_rel_trans; eassumption.
+    + apply input_read_err in E. stop_inv. err_fin.
+Qed.
+
+Ltac err_chain :=
+  repeat match goal with
+         | H : fetch _ _ = Ok _ |- _ => apply fetch_err in H
+         | H : move_ip _ _ = Ok _ |- _ => apply move_ip_err in H
+         | H : push _ _ _ = Ok _ |- _ => apply push_err in H
+         | H : push_frame _ _ _ = Ok _ |- _ => apply push_frame_err in H
+         | H : pop_incr _ = Ok _ |- _ => apply pop_incr_err in H
+         | H : pop_only _ = Ok _ |- _ => apply pop_only_err in H
+         | H : un_op _ _ = Ok _ |- _ => apply un_op_err in H
+         | H : bin_op _ _ = Ok _ |- _ => apply bin_op_err in H
+         | H : out_write _ _ _ = Ok _ |- _ => apply out_write_err in H
+         | H : out_apply _ _ _ = Ok _ |- _ => apply out_apply_err in H
+         | H : input_read _ _ _ _ = Ok _ |- _ => apply input_read_err in H
+         | H : push_items _ _ _ = Ok _ |- _ => apply push_items_err in H
+         | H : deliver _ _ _ _ _ = Ok _ |- _ => apply deliver_err in H
+         | H : read_varints _ _ _ _ _ _ _ = Ok _ |- _ => apply read_varints_err in H
+         | H : read_nbits _ _ _ _ _ _ _ _ _ _ _ _ _ = Ok _ |- _ => apply read_nbits_err in H
+         end;
+  err_fin.
+
+Lemma exec_read_err : forall p e m bc fl m1, exec_read p e m bc = Ok (fl, m1) -> err_rel m m1.
+Proof.
+  intros p e m bc fl m1 H. unfold exec_read in H. cbv zeta in H.
+  break_all; stop_inv; err_chain.
+Qed.
+
+Lemma exec_builtin_err : forall p e m bc fl m1, exec_builtin p e m bc = Ok (fl, m1) -> err_rel m m1.
+Proof.
+  intros p e m bc fl m1 H. unfold exec_builtin, with_arg in H. cbv zeta in H.
+  break_all; stop_inv; err_chain.
+Qed.
+
+Lemma exec_exit_err : forall b p m fl m1, exec_exit b p m = Ok (fl, m1) -> err_rel m m1.
+Proof.
+  intros b p m fl m1 H. unfold exec_exit in H. cbv zeta in H.
+  break_all; stop_inv; err_chain.
+Qed.
+
+Lemma exec_op_err : forall fixed single p e m bc fl m1, exec_op fixed single p e m bc = Ok (fl, m1) -> err_rel m m1.
+Proof.
+  intros fixed single p e m bc fl m1 H. unfold exec_op in H.
+  destruct (bc <? 0); [eapply exec_read_err; eassumption|].
+  destruct (BOUND_DICTIONARY <=? bc); [eapply push_frame_err; eassumption|].
+  destruct (bc =? CODE_EXIT); [eapply exec_exit_err; eassumption | eapply exec_builtin_err; eassumption].
+Qed.
